@@ -196,7 +196,12 @@ func (c *xtsDecrypter) CryptBlocks(plaintext, ciphertext []byte) {
 		batchSize := concCipher.Concurrency() * blockSize
 		var tweaks []byte = make([]byte, batchSize)
 
-		for len(ciphertext) >= batchSize {
+		// keep the last full block for ciphertext stealing when there is a partial final block
+		keep := 0
+		if len(ciphertext)%blockSize != 0 {
+			keep = blockSize
+		}
+		for len(ciphertext) >= batchSize+keep {
 			doubleTweaks(&c.tweak, tweaks, c.isGB)
 			subtle.XORBytes(plaintext, ciphertext, tweaks)
 			concCipher.DecryptBlocks(plaintext, plaintext)
